@@ -51,6 +51,9 @@ type structVM struct {
 	exprSelectorList           []string
 	ifaceTagExprGetters        []func(unsafe.Pointer, string, func(*TagExpr, error) error) error
 	err                        error
+	// registering: the fields are still being collected (a recursive type meets
+	// its own half-built description); whether it carries rules is not known yet
+	registering bool
 }
 
 // fieldVM tag expression set of struct field
@@ -297,6 +300,8 @@ func (vm *VM) registerStructLocked(structType reflect.Type) (*structVM, error) {
 	}
 	s = vm.newStructVM()
 	s.name = structType.String()
+	s.registering = true
+	defer func() { s.registering = false }()
 	vm.structJar[tid] = s
 	numField := structType.NumField()
 	var structField reflect.StructField
@@ -391,7 +396,8 @@ func (vm *VM) registerIndirectStructLocked(field *fieldVM) error {
 			if err != nil {
 				return err
 			}
-			if len(s.exprSelectorList) > 0 ||
+			if s.registering ||
+				len(s.exprSelectorList) > 0 ||
 				len(s.ifaceTagExprGetters) > 0 ||
 				len(s.fieldsWithIndirectStructVM) > 0 {
 				if i == 0 {
